@@ -247,6 +247,31 @@ fn run<G: Group>(sc: &Scenario, st: &mut RunStats) -> Vec<Violation> {
         // --- decoding and statement construction: measured, guarded ---
         alloc::window_start();
         free::reset_work();
+        // the other decoding surfaces: the announced extension degree and the serde form (bincode:
+        // u64 length prefix + bytes; also with a lying length prefix)
+        let other_surfaces = guarded(|| {
+            for p in prepared.iter() {
+                let _ = G::ext_from_bytes(&p.msg.proof);
+                let mut framed = (p.msg.proof.len() as u64).to_le_bytes().to_vec();
+                framed.extend_from_slice(&p.msg.proof);
+                let _ = G::serde_in(&framed);
+                let _ = G::serde_in(&p.msg.proof);
+                if p.msg.proof.len() >= 8 {
+                    let mut lying = framed.clone();
+                    lying[0] = lying[0].wrapping_add(1);
+                    let _ = G::serde_in(&lying);
+                }
+            }
+        });
+        st.evals += 1;
+        if let Err(c) = other_surfaces {
+            out.push(Violation::new(
+                "panic_in_decoding_or_constructors",
+                "serde / extension_degree_from_proof_bytes",
+                format!("case {}: {:?}", ci, c),
+            ));
+            return out;
+        }
         let opened = guarded(|| prepared.iter().map(|p| p.msg.open()).collect::<Vec<_>>());
         st.evals += 1;
         let opened = match opened {
